@@ -21,6 +21,7 @@ namespace ex = pika::execution::experimental;
 using vlog::ev;
 
 constexpr int NSRC = 4, NTOK = 2, NCB = 4;
+constexpr int NCBX = 12;    // callbacks of a chase history (the other scenarios use 1..NCB)
 
 struct cb_body;
 using callback_t = pika::stop_callback<std::function<void()>>;
@@ -29,11 +30,13 @@ struct world
 {
     std::optional<pika::stop_source> src[NSRC + 1];
     std::optional<pika::stop_token> tok[NTOK + 1];
-    std::optional<callback_t> cb[NCB + 1];
-    std::atomic<int> cb_created[NCB + 1];      // 1 after make_cb returned
-    std::atomic<int> cb_claimed[NCB + 1];      // destroy claimed (exactly one destroyer)
-    int cb_behaviour[NCB + 1];                 // 0 plain, 1 delay, 2 nested-destroy other, 3 self
-    int cb_victim[NCB + 1];
+    std::optional<callback_t> cb[NCBX + 1];
+    std::atomic<int> cb_created[NCBX + 1];      // 1 after make_cb returned
+    std::atomic<int> cb_claimed[NCBX + 1];      // destroy claimed (exactly one destroyer)
+    int cb_behaviour[NCBX + 1];                 // 0 plain, 1 delay, 2 nested-destroy other, 3 self
+    int cb_victim[NCBX + 1];
+    std::atomic<int> cb_began[NCBX + 1];        // callback body entered
+    std::atomic<int> chase_go{0};              // the chasing destroyer may start
     int mirror_src[NSRC + 1];                  // abstract state number held (harness-side, seq. phase)
     int nstates = 0;
     world()
@@ -44,10 +47,11 @@ struct world
             mirror_src[i] = 0;
         }
         for (int i = 0; i <= NTOK; ++i) tok[i].emplace();
-        for (int i = 0; i <= NCB; ++i)
+        for (int i = 0; i <= NCBX; ++i)
         {
             cb_created[i] = 0;
             cb_claimed[i] = 0;
+            cb_began[i] = 0;
             cb_behaviour[i] = 0;
             cb_victim[i] = 0;
         }
@@ -72,6 +76,7 @@ static void run_cb(world* w, int c)
     int a = vact::get();
     int beh = w->cb_behaviour[c];
     int victim = w->cb_victim[c];
+    w->cb_began[c].store(1, std::memory_order_relaxed);
     ev("cb_begin").i("a", a).i("c", c).done();
     if (beh == 1) spin_us(150);
     if (beh == 2 && victim != c && victim > 0)
@@ -109,7 +114,9 @@ enum
     o_destroy_src,
     o_req_tok,
     o_pos_tok,
-    o_yield
+    o_yield,
+    o_chase_request,    // request_stop, announced to the chasing destroyer
+    o_chase_destroy     // destroy callback c right when request_stop is about to dequeue it
 };
 
 static void make_cb(world& w, int a, int c, int t)
@@ -393,9 +400,28 @@ int main(int argc, char** argv)
             for (int c = 1; c <= NCB; ++c)
                 if (w.cb_behaviour[c] == 3) destroyer[c] = 0;
 
+            // chase: one actor registers all callbacks and requests stop, the other destroys the callbacks in
+            // the order in which request_stop runs them (newest first), each one right when the previous one has
+            // begun - the destructor's lock attempt meets request_stop between two callbacks
+            bool chase = !drop_sources && !race && !pre_requested && R.chance(1, 3);
+            if (chase)
+            {
+                nact = 2;
+                for (int c = 1; c <= NCBX; ++c) w.cb_behaviour[c] = 0;
+            }
             std::vector<std::vector<opdesc>> scripts(nact + 1);
             std::vector<bool> on_pika(nact + 1);
-            for (int a = 1; a <= nact; ++a)
+            if (chase)
+            {
+                for (int c = 1; c <= NCBX; ++c) scripts[1].push_back({o_make, 1, 0, c});
+                scripts[1].push_back({o_chase_request, 1, 0, 0});
+                // the destroyer either waits for the previous callback to begin (plus a swept delay) or simply
+                // destroys one callback after the other as fast as it can
+                int mode = (int) R.below(2);
+                for (int c = NCBX; c >= 1; --c)
+                    scripts[2].push_back({o_chase_destroy, mode, mode ? 0 : (int) R.below(700), c});
+            }
+            for (int a = 1; a <= nact && !chase; ++a)
             {
                 // actors 1,2 are pika tasks, 3,4 are OS threads (see StopTrace.cfg OsActor)
                 std::vector<opdesc>& s = scripts[a];
@@ -456,6 +482,23 @@ int main(int argc, char** argv)
                             ret(id, r ? 1 : 0);
                             break;
                         }
+                        case o_chase_request:
+                        {
+                            call(id, "request_stop", o.h, 0, 0);
+                            w.chase_go.store(1, std::memory_order_relaxed);
+                            bool r = w.src[o.h]->request_stop();
+                            ret(id, r ? 1 : 0);
+                            break;
+                        }
+                        case o_chase_destroy:
+                        {
+                            auto& trigger = (o.c == NCBX || o.h == 1) ? w.chase_go : w.cb_began[o.c + 1];
+                            auto t = std::chrono::steady_clock::now() + std::chrono::milliseconds(30);
+                            while (trigger.load(std::memory_order_relaxed) == 0 && std::chrono::steady_clock::now() < t) {}
+                            for (int sp = 0; sp < o.g; ++sp) asm volatile("" ::: "memory");
+                            destroy_cb(w, id, o.c, true);
+                            break;
+                        }
                         case o_make: make_cb(w, id, o.c, 1); break;
                         case o_destroy_cb: destroy_cb(w, id, o.c, true); break;
                         case o_destroy_src:
@@ -500,7 +543,7 @@ int main(int argc, char** argv)
             for (auto& t : os_threads) t.join();
             // drain: the driver (an OS thread) destroys what is left
             vact::set(9);
-            for (int c = 1; c <= NCB; ++c) destroy_cb(w, 9, c, false);
+            for (int c = 1; c <= NCBX; ++c) destroy_cb(w, 9, c, false);
         }
         ev("reset").done();
     }
